@@ -372,6 +372,7 @@ def run(chk):
                         'BEING_PROCESSED: a ring slot keeps the status of its previous use', floor=9)
     from . import c12 as _c12
     _c12.run_v9(chk, P, 'Q8', lambda fn: bool(re.search(r'burst|queue|submit_job_and_check|get_next_job|get_completed_job|flush_job', fn)), 200)
+    q9 = chk.rule('Q9', 'a contiguous-slot count (get_queue_sz_end) is taken from the ring offset that is then advanced by it (ADV_N_JOBS)', floor=9)
     nvar = 0
     mgr = P.record('IMB_MGR')
     jobsz = P.record('IMB_JOB')['size']
@@ -390,6 +391,7 @@ def run(chk):
         allowed = closure(P, tu, [roles[r_] for r_ in WRITER_ROLES if r_ in roles]) | \
             {f.name for f in P.funcs(tu) if re.match(r'init_mb_mgr_\w+_internal$', f.name)}
         run_q7(q7, P, tu, vt)
+        run_q9(q9, P, tu, vt)
         # ---- Q6
         if roles.get('get_next_burst') and P.has(tu, roles['get_next_burst']):
             run_q6(q6, P, tu, roles['get_next_burst'], vt)
@@ -629,6 +631,47 @@ def run_q7(q7, P, tu, vt):
         q7.check(bad is None, '%s:%s' % (vt, f.name), (bad or sites[0][2])['loc'],
                  '%s: a path reaches %s without job->status = IMB_STATUS_BEING_PROCESSED: the slot keeps the status of its previous use and '
                  'the job is handed back as completed without having been processed' % (f.name, 'the stage dispatch at %s' % (bad or {}).get('loc')))
+
+
+def run_q9(q9, P, tu, vt):
+    """the number of contiguous slots is measured from the ring offset that is advanced next: a count taken from next_job while earliest_job is
+    advanced by it (or the reverse) walks off the jobs actually awaiting return"""
+    for f in P.funcs(tu):
+        sites = []
+        for b, i, ev in f.events(('assign', 'decl', 'call')):
+            xs = [ev.get('rhs'), ev.get('e')] + [d.get('init') for d in ev.get('d', [])] if ev['k'] != 'call' else [ev.get('e')]
+            for x in xs:
+                for n in cf.walk(x or {}):
+                    if n.get('k') == 'call' and n.get('fn') == 'get_queue_sz_end' and n.get('a'):
+                        rf = ring_field(n['a'][0])
+                        if rf:
+                            sites.append((b, i, ev, rf))
+        seen_site = set()
+        for b, i, ev, rf in sites:
+            if (b, i) in seen_site:
+                continue
+            seen_site.add((b, i))
+            # first ADV_N_JOBS reachable from here
+            found = None
+            seenb, st = set(), [(b, i + 1)]
+            while st and found is None:
+                bb, i0 = st.pop()
+                if (bb, i0 > 0) in seenb:
+                    continue
+                seenb.add((bb, i0 > 0))
+                hit = False
+                for e2 in f.blocks[bb]['ev'][i0:]:
+                    if e2['k'] == 'call' and e2['e'].get('fn') == 'ADV_N_JOBS' and e2['e'].get('a'):
+                        found = addr_ring_field(e2['e']['a'][0])
+                        hit = True
+                        break
+                if not hit:
+                    st.extend((s_, 0) for s_, _ in f.edges(bb, None))
+            if found is None:
+                q9.ok('%s:%s:%s' % (vt, f.name, rf), 'count only')
+                continue
+            q9.check(found == rf, '%s:%s:%s@%s' % (vt, f.name, rf, ev['loc'].split('/')[-1]), ev['loc'],
+                     '%s measures the contiguous slots from %s but then advances %s by that count' % (f.name, rf, found))
 
 
 def stage_calls(P, tu, fname, order, depth=0, seen=None):
